@@ -57,6 +57,42 @@ pub struct Case {
     /// pattern) instead of the builder; only with the plain `{m}` encoder
     #[serde(default)]
     pub via_config: bool,
+    /// before the single append of this index, an append through THIS appender whose encoder fails after writing the
+    /// first k bytes of the record (index, k): the call must report the error, and everything acknowledged before stays
+    /// in the file, whole and in order (only with the plain `{m}` encoder built through the builder)
+    #[serde(default)]
+    pub own_failure_at: Option<(u8, u8)>,
+    /// before the single append of this index the log file is rotated away by somebody else (renamed; then 0: nothing,
+    /// 1: an empty file, 2: a file with a header line is put in its place) and a NEW appender is built on the path
+    /// while the old one is still alive: what the new appender acknowledges must be readable at the path
+    #[serde(default)]
+    pub external_rotate_at: Option<(u8, u8)>,
+}
+
+/// `{m}` unless told to fail: then the first k bytes of the message are written and an error is returned.
+#[derive(Debug)]
+struct SwitchFailEncoder {
+    fail_next: Arc<std::sync::Mutex<Option<usize>>>,
+}
+
+impl Encode for SwitchFailEncoder {
+    fn encode(&self, w: &mut dyn log4rs::encode::Write, record: &log::Record) -> anyhow::Result<()> {
+        let msg = format!("{}", record.args());
+        match self.fail_next.lock().unwrap().take() {
+            Some(k) => {
+                let mut k = k.min(msg.len());
+                while !msg.is_char_boundary(k) {
+                    k -= 1;
+                }
+                w.write_all(&msg.as_bytes()[..k])?;
+                anyhow::bail!("verif: scripted encoder failure after {} bytes", k)
+            }
+            None => {
+                w.write_all(msg.as_bytes())?;
+                Ok(())
+            }
+        }
+    }
 }
 
 struct NestingArg<'a> {
@@ -112,8 +148,9 @@ pub fn strategy() -> impl Strategy<Value = Case> {
         prop::collection::vec(len_strategy(), 0..=3),
         prop::bool::weighted(0.7),
         (prop::bool::weighted(0.25), prop::option::weighted(0.25, 0u8..8), prop::option::weighted(0.2, 0u8..8), prop::option::weighted(0.2, 0u8..8), prop::bool::weighted(0.3)),
+        (prop::option::weighted(0.3, (0u8..8, prop_oneof![Just(0u8), 1u8..40])), prop::option::weighted(0.25, (0u8..8, 0u8..3))),
     )
-        .prop_map(|(pre_kind, pre_len, append_mode, chunks, singles, phase, singles_after, terminated, (twin, panicking_arg_at, nested_at, side_failure_at, via_config))| Case { pre_kind, pre_len, append_mode, via_config: via_config && chunks.is_none(), chunks, singles, phase, singles_after, terminated, twin: twin && append_mode, panicking_arg_at, nested_at, side_failure_at })
+        .prop_map(|(pre_kind, pre_len, append_mode, chunks, singles, phase, singles_after, terminated, (twin, panicking_arg_at, nested_at, side_failure_at, via_config), (own_failure_at, external_rotate_at))| Case { pre_kind, pre_len, append_mode, via_config: via_config && chunks.is_none(), chunks, singles, phase, singles_after, terminated, twin: twin && append_mode, panicking_arg_at, nested_at, side_failure_at, own_failure_at, external_rotate_at })
 }
 
 /// Multi-chunk encoder which can park *inside* the appender's critical section.
@@ -189,22 +226,28 @@ fn check_in(dir: &Path, case: &Case, obs: &mut Obs) -> CaseResult {
     let about = Arc::new(AtomicUsize::new(0));
     let parked = Arc::new(AtomicUsize::new(0));
     let park_set: BTreeSet<(u16, u32)> = case.phase.as_ref().map(|p| p.park.iter().map(|(t, r)| (*t as u16 + 1, *r as u32)).collect()).unwrap_or_default();
-    let encoder: Box<dyn Encode> = match &case.chunks {
-        None => make_encoder(&None),
-        Some(c) => Box::new(ParkEncoder { chunks: c.clone(), about: about.clone(), park: Arc::new(park_set.clone()), parked: parked.clone() }),
+    let fail_next: Arc<std::sync::Mutex<Option<usize>>> = Arc::new(std::sync::Mutex::new(None));
+    let can_fail = case.chunks.is_none() && !case.via_config && case.phase.is_none() && !case.twin; // with a twin the unflushed bytes would surface after records written through the other appender
+    let build_app = |append_mode: bool| -> Result<Box<dyn Append>, Failure> {
+        let encoder: Box<dyn Encode> = match &case.chunks {
+            None if can_fail => Box::new(SwitchFailEncoder { fail_next: fail_next.clone() }),
+            None => make_encoder(&None),
+            Some(c) => Box::new(ParkEncoder { chunks: c.clone(), about: about.clone(), park: Arc::new(park_set.clone()), parked: parked.clone() }),
+        };
+        Ok(if case.via_config && case.chunks.is_none() {
+            // what a configuration file with `kind: file`, `append: ..` and an `encoder:` section produces
+            let mut enc = std::collections::BTreeMap::new();
+            enc.insert(serde_value::Value::String("pattern".into()), serde_value::Value::String("{m}".into()));
+            let mut m = std::collections::BTreeMap::new();
+            m.insert(serde_value::Value::String("path".into()), serde_value::Value::String(path.display().to_string()));
+            m.insert(serde_value::Value::String("append".into()), serde_value::Value::Bool(append_mode));
+            m.insert(serde_value::Value::String("encoder".into()), serde_value::Value::Map(enc));
+            log4rs::config::Deserializers::default().deserialize::<dyn Append>("file", serde_value::Value::Map(m)).map_err(|e| Failure { sig: "C04:build".into(), msg: e.to_string() })?
+        } else {
+            Box::new(FileAppender::builder().append(append_mode).encoder(encoder).build(&path).map_err(|e| Failure { sig: "C04:build".into(), msg: e.to_string() })?)
+        })
     };
-    let app: Box<dyn Append> = if case.via_config && case.chunks.is_none() {
-        // what a configuration file with `kind: file`, `append: ..` and an `encoder:` section produces
-        let mut enc = std::collections::BTreeMap::new();
-        enc.insert(serde_value::Value::String("pattern".into()), serde_value::Value::String("{m}".into()));
-        let mut m = std::collections::BTreeMap::new();
-        m.insert(serde_value::Value::String("path".into()), serde_value::Value::String(path.display().to_string()));
-        m.insert(serde_value::Value::String("append".into()), serde_value::Value::Bool(case.append_mode));
-        m.insert(serde_value::Value::String("encoder".into()), serde_value::Value::Map(enc));
-        log4rs::config::Deserializers::default().deserialize::<dyn Append>("file", serde_value::Value::Map(m)).map_err(|e| Failure { sig: "C04:build".into(), msg: e.to_string() })?
-    } else {
-        Box::new(FileAppender::builder().append(case.append_mode).encoder(encoder).build(&path).map_err(|e| Failure { sig: "C04:build".into(), msg: e.to_string() })?)
-    };
+    let mut app: Box<dyn Append> = build_app(case.append_mode)?;
     // open mode: append keeps everything, truncate has discarded it exactly once, at open
     let mut expected: Vec<u8> = if case.append_mode { pre.clone() } else { vec![] };
     let at_open = std::fs::read(&path).unwrap_or_default();
@@ -214,16 +257,28 @@ fn check_in(dir: &Path, case: &Case, obs: &mut Obs) -> CaseResult {
     let mut seq = 0u32;
     let mut big = false;
     // the twin opens the same path in append mode as well (after the first appender, like a reloaded configuration)
-    let twin_app = if case.twin {
-        Some(FileAppender::builder().append(true).encoder(make_encoder(&case.chunks.as_ref().map(|c| c.clone()))).build(&path).map_err(|e| Failure { sig: "C04:build".into(), msg: e.to_string() })?)
-    } else {
-        None
+    let build_twin = || -> Result<Option<FileAppender>, Failure> {
+        Ok(if case.twin {
+            Some(FileAppender::builder().append(true).encoder(make_encoder(&case.chunks.as_ref().map(|c| c.clone()))).build(&path).map_err(|e| Failure { sig: "C04:build".into(), msg: e.to_string() })?)
+        } else {
+            None
+        })
     };
-    let single = |len: usize, seq: &mut u32, expected: &mut Vec<u8>, obs: &mut Obs| -> CaseResult {
+    let mut twin_app = build_twin()?;
+    // bytes of a record whose encoder failed half-way (never acknowledged): position in `expected` and the bytes the
+    // encoder had written; any prefix of them may show up at that position (they sit in a buffer or went to the file)
+    let mut junk: Option<(usize, Vec<u8>)> = None;
+    fn matches(got: &[u8], expected: &[u8], junk: &Option<(usize, Vec<u8>)>) -> bool {
+        match junk {
+            None => got == expected,
+            Some((pos, j)) => (0..=j.len()).any(|n| got.len() == expected.len() + n && got[..*pos] == expected[..*pos] && got[*pos..*pos + n] == j[..n] && got[*pos + n..] == expected[*pos..]),
+        }
+    }
+    let single = |app: &dyn Append, twin_app: &Option<FileAppender>, junk: &Option<(usize, Vec<u8>)>, len: usize, seq: &mut u32, expected: &mut Vec<u8>, obs: &mut Obs| -> CaseResult {
         let text = rec_text(0, *seq, len);
         *seq += 1;
         let through_twin = twin_app.is_some() && *seq % 2 == 0;
-        match catch(|| if through_twin { append_msg(twin_app.as_ref().unwrap(), &text) } else { append_msg(&*app, &text) }) {
+        match catch(|| if through_twin { append_msg(twin_app.as_ref().unwrap(), &text) } else { append_msg(app, &text) }) {
             Err(p) => return fail("C04:panic", format!("append panicked: {}", p)),
             Ok(Err(e)) => return fail("C04:append-error", format!("append returned an error: {}", e)),
             Ok(Ok(())) => {}
@@ -233,12 +288,17 @@ fn check_in(dir: &Path, case: &Case, obs: &mut Obs) -> CaseResult {
         // a fresh handle = "any other reader"
         let got = std::fs::read(&path).unwrap_or_default();
         ensure!(
-            got == *expected,
+            matches(&got, expected, junk),
             if got.len() < expected.len() { "C04:not-visible" } else { "C04:content" },
-            "after an acknowledged append of {} bytes the file read through a fresh handle holds {} bytes, expected {} (pre-existing ++ all acknowledged records)", text.len(), got.len(), expected.len()
+            "after an acknowledged append of {} bytes the file read through a fresh handle holds {} bytes, expected {} (pre-existing ++ all acknowledged records{})", text.len(), got.len(), expected.len(),
+            if junk.is_some() { "; an earlier record whose encoder failed half-way may have left the bytes it had written" } else { "" }
         );
         Ok(())
     };
+    let mut retired: Vec<Box<dyn Append>> = vec![];
+    let mut retired_twins: Vec<FileAppender> = vec![];
+    let mut own_failed = false;
+    let mut rotated_away = false;
     let mut unwound = false;
     let mut nested = false;
     let mut side_failed = false;
@@ -247,7 +307,7 @@ fn check_in(dir: &Path, case: &Case, obs: &mut Obs) -> CaseResult {
             let r = catch(|| app.append(&log::Record::builder().args(format_args!("{}", PanickingArg)).level(log::Level::Info).target("t").build()));
             ensure!(r.is_err(), "C04:harness", "the panicking argument did not panic");
             let got = std::fs::read(&path).unwrap_or_default();
-            ensure!(got == expected, "C04:content", "an append that unwound before producing a byte changed the file: {} bytes, expected {}", got.len(), expected.len());
+            ensure!(matches(&got, &expected, &junk), "C04:content", "an append that unwound before producing a byte changed the file: {} bytes, expected {}", got.len(), expected.len());
             unwound = true;
         }
         if case.side_failure_at.map(|k| k as usize % case.singles.len()) == Some(si) {
@@ -275,7 +335,7 @@ fn check_in(dir: &Path, case: &Case, obs: &mut Obs) -> CaseResult {
             }
             expected.extend_from_slice(own.as_bytes());
             let got = std::fs::read(&path).unwrap_or_default();
-            ensure!(got == expected, if got.len() < expected.len() { "C04:not-visible" } else { "C04:content" }, "after an append whose argument logged through another appender the file holds {} bytes, expected {}", got.len(), expected.len());
+            ensure!(matches(&got, &expected, &junk), if got.len() < expected.len() { "C04:not-visible" } else { "C04:content" }, "after an append whose argument logged through another appender the file holds {} bytes, expected {}", got.len(), expected.len());
             let got_side = std::fs::read(&side_path).unwrap_or_default();
             ensure!(
                 got_side == side_text.as_bytes(),
@@ -284,9 +344,58 @@ fn check_in(dir: &Path, case: &Case, obs: &mut Obs) -> CaseResult {
             );
             nested = true;
         }
+        if let Some((k, kind)) = case.external_rotate_at {
+            if k as usize % case.singles.len() == si {
+                // somebody else rotates the log file away; the old appender stays alive, a new one is built on the path
+                let moved = dir.join(format!("sub/file.log.moved-{}", si));
+                if path.exists() {
+                    std::fs::rename(&path, &moved).map_err(|e| Failure { sig: "C04:harness".into(), msg: format!("rename: {}", e) })?;
+                }
+                let header = b"# header written by whoever rotated the file\n".to_vec();
+                match kind % 3 {
+                    0 => {}
+                    1 => std::fs::write(&path, b"").unwrap(),
+                    _ => std::fs::write(&path, &header).unwrap(),
+                }
+                let new_app = build_app(case.append_mode)?;
+                retired.push(std::mem::replace(&mut app, new_app));
+                if let Some(t) = twin_app.take() {
+                    retired_twins.push(t);
+                }
+                twin_app = build_twin()?;
+                expected = if kind % 3 == 2 && case.append_mode { header } else { vec![] };
+                junk = None;
+                let got = std::fs::read(&path).unwrap_or_default();
+                ensure!(got == expected, "C04:open-mode", "a new appender (append={}) built on the path after the file was rotated away by somebody else: the file holds {} bytes, expected {}", case.append_mode, got.len(), expected.len());
+                rotated_away = true;
+            }
+        }
+        if let (true, Some((k, part))) = (can_fail, case.own_failure_at) {
+            if k as usize % case.singles.len() == si && junk.is_none() {
+                let text = rec_text(0x0F0F, seq, 30);
+                *fail_next.lock().unwrap() = Some(part as usize);
+                let r = catch(|| append_msg(&*app, &text));
+                *fail_next.lock().unwrap() = None;
+                match r {
+                    Err(p) => return fail("C04:panic", format!("an append whose encoder fails panicked: {}", p)),
+                    Ok(Ok(())) => return fail("C04:error-swallowed", "an append whose encoder returned an error after writing part of the record was acknowledged".to_string()),
+                    Ok(Err(_)) => {}
+                }
+                junk = Some((expected.len(), text.as_bytes()[..(part as usize).min(text.len())].to_vec()));
+                let got = std::fs::read(&path).unwrap_or_default();
+                ensure!(
+                    matches(&got, &expected, &junk),
+                    if got.len() < expected.len() { "C04:not-visible" } else { "C04:content" },
+                    "after an append that failed in its encoder ({} bytes written before the error) the file holds {} bytes; the {} bytes acknowledged before must still be there, whole and in order (append={})", part, got.len(), expected.len(), case.append_mode
+                );
+                own_failed = true;
+            }
+        }
         big |= record_size(*len) > 1024;
-        single(*len, &mut seq, &mut expected, obs)?;
+        single(&*app, &twin_app, &junk, *len, &mut seq, &mut expected, obs)?;
     }
+    drop(retired);
+    drop(retired_twins);
     let mut parked_records = 0;
     if let Some(ph) = &case.phase {
         let app = Arc::new(app);
@@ -415,6 +524,8 @@ fn check_in(dir: &Path, case: &Case, obs: &mut Obs) -> CaseResult {
     obs.class_if(unwound, "append-unwound-by-panicking-argument-earlier");
     obs.class_if(nested, "argument-logs-through-another-file-appender");
     obs.class_if(side_failed, "another-appender-failed-mid-record-earlier");
+    obs.class_if(own_failed, "own-encoder-failed-mid-record-earlier");
+    obs.class_if(rotated_away, "file-rotated-away-by-somebody-else+new-appender");
     Ok(())
 }
 
